@@ -97,7 +97,7 @@ def jac_job(job):
         out['tally'] = tally.as_dict()
         return out
     syms = tvspec.Symbols(spec)
-    adaptive = solver not in ('euler', 'default')
+    adaptive = solver not in ('euler', 'heun', 'default')
     t = symx.real('t')
     if inp:
         for i, b in enumerate(base):
@@ -269,7 +269,7 @@ def run(tier='quick', seed=0, only=None, verbose=False):
         'emitted text of get_run_func (symx forward-mode AD)', 'emitted text of get_jacobian_func (symx)',
         'ComputeGraph.get_jacobian_func / _get_symbolic_rhs / _resolve_derivatives / _expr_to_jac_str (concrete)'],
         bounds=dict(states='<=5', delays='<=2 distinct', functions='tanh sin cos exp sigmoid arctan sinh cosh absv tan, '
-                    'cubic and rational terms, algebraic intermediates, edges', backends='default', sparse='on/off', solver='euler, scipy, keyword omitted in both calls',
+                    'cubic and rational terms, algebraic intermediates, edges', backends='default', sparse='on/off', solver='euler, heun, scipy, keyword omitted in both calls',
                     vectorize='False (scalar models, as the property states)'),
         stubs=['numpy library model; hist = uninterpreted functions; scipy.sparse.csr_matrix = tagging wrapper'],
         assumptions=['reals for floats', 'abs: argument != 0 at the evaluation point', 'auto-07p DFDU/DFDP: see C18',
@@ -282,12 +282,14 @@ def run(tier='quick', seed=0, only=None, verbose=False):
         if hash(k) % 3 == 0 or tier == 'thorough':
             jobs.append(dict(key=f"{k}|sparse", spec=s, solver='euler', sparse=True))
     for pi_, (k, s) in enumerate(progs[:4 if tier == 'quick' else 40]):
-        for solver in ('euler', 'scipy'):
+        for solver in ('euler', 'heun', 'scipy'):
             jobs.append(dict(key=f"{k}|{solver}|input", spec=s, solver=solver, inputs=['q/o1/u', 'p/nl/r_in'][pi_ % 2]))
     for di, (k, s) in enumerate(dde):
         jobs.append(dict(key=f"{k}|scipy", spec=s, solver='scipy'))
         if di % 2 == 0 or tier == 'thorough':
             jobs.append(dict(key=f"{k}|default-solver", spec=s, solver='default'))
+        if di % 4 == 1 or tier == 'thorough':
+            jobs.append(dict(key=f"{k}|heun", spec=s, solver='heun'))
         if tier == 'thorough':
             jobs.append(dict(key=f"{k}|euler", spec=s, solver='euler'))
     if only:
